@@ -207,11 +207,13 @@ func (c *SyncMap) Dump(w io.Writer) (int, error) {
 func (c *SyncMap) Restore(r io.Reader) (int, error) {
 	var (
 		decoder = gob.NewDecoder(r)
-		e       TraitEntry
 		n       = 0
 	)
 
 	for {
+		// Decoding into a fresh value, gob does not reset fields that are missing in the stream.
+		var e TraitEntry
+
 		err := decoder.Decode(&e)
 		if err != nil {
 			if errors.Is(err, io.EOF) {
@@ -220,8 +222,6 @@ func (c *SyncMap) Restore(r io.Reader) (int, error) {
 
 			return n, err
 		}
-
-		e := e
 
 		c.data.Store(string(e.K), &e)
 
